@@ -6,8 +6,6 @@
 use super::Property;
 use crate::engine::{CheckResult, Ctx, Fail, StreamSpec, Tier};
 
-use saphyr::{LoadableYamlNode, Scalar, Yaml, YamlEmitter};
-use saphyr_parser::{Event, Parser, Span, SpannedEventReceiver};
 use serde_json::{json, Value};
 use std::io::Read;
 use std::os::unix::process::ExitStatusExt;
@@ -17,175 +15,7 @@ use std::time::{Duration, Instant};
 pub struct C11P;
 pub static C11: C11P = C11P;
 
-pub const SHAPES: [&str; 9] = ["seq", "key", "flowseq", "flowmap", "alt-block", "alt-flow", "block-flow", "key-per-level", "mix"];
-pub const APIS: [&str; 7] = ["iter", "load", "load_str_forget", "load_str_drop", "load_marked_drop", "built_drop", "emit"];
-
-/// Build the nested input. `mix` uses the opener word given (indices into OPENERS).
-pub const OPENERS: [&str; 5] = ["- ", "? ", "[", "{a: ", "- - "];
-
-pub fn nest_text(shape: &str, depth: usize, word: &[u8]) -> String {
-    let mut s = String::new();
-    match shape {
-        "seq" => {
-            s = "- ".repeat(depth);
-            s.push('x');
-        }
-        "key" => {
-            s = "? ".repeat(depth);
-            s.push('x');
-        }
-        "flowseq" => s = "[".repeat(depth),
-        "flowmap" => s = "{a: ".repeat(depth),
-        "alt-block" => {
-            for i in 0..depth {
-                s.push_str(if i % 2 == 0 { "- " } else { "? " });
-            }
-            s.push('x');
-        }
-        "alt-flow" => {
-            for i in 0..depth {
-                s.push_str(if i % 2 == 0 { "[" } else { "{a: " });
-            }
-        }
-        "block-flow" => {
-            // block nesting followed by flow nesting (below the flow limit)
-            s = "- ".repeat(depth);
-            s.push_str(&"[".repeat(200.min(depth)));
-            s.push_str(&"]".repeat(200.min(depth)));
-        }
-        "key-per-level" => {
-            for d in 0..depth {
-                for _ in 0..d {
-                    s.push(' ');
-                }
-                s.push_str("k:\n");
-            }
-        }
-        _ => {
-            for i in 0..depth {
-                let w = if word.is_empty() { 0 } else { word[i % word.len()] as usize % OPENERS.len() };
-                s.push_str(OPENERS[w]);
-            }
-            s.push('x');
-        }
-    }
-    s
-}
-
-struct Sink(usize);
-impl<'i> SpannedEventReceiver<'i> for Sink {
-    fn on_event(&mut self, _: Event<'i>, _: Span) {
-        self.0 += 1;
-    }
-}
-
-fn built_tree(shape: &str, depth: usize) -> Yaml<'static> {
-    let mut y = Yaml::Value(Scalar::String("x".into()));
-    for i in 0..depth {
-        let map = match shape {
-            "flowmap" | "key" | "key-per-level" => true,
-            "alt-block" | "alt-flow" | "mix" => i % 2 == 1,
-            _ => false,
-        };
-        y = if map {
-            let mut m = hashlink::LinkedHashMap::new();
-            m.insert(Yaml::Value(Scalar::String("a".into())), y);
-            Yaml::Mapping(m)
-        } else {
-            Yaml::Sequence(vec![y])
-        };
-    }
-    y
-}
-
-/// The scenario itself; runs inside the child. Returns "ok" or "err".
-pub fn scenario(shape: &str, api: &str, depth: usize, word: &[u8]) -> &'static str {
-    match api {
-        "iter" => {
-            let text = nest_text(shape, depth, word);
-            for e in Parser::new_from_str(&text) {
-                if e.is_err() {
-                    return "err";
-                }
-            }
-            "ok"
-        }
-        "load" => {
-            let text = nest_text(shape, depth, word);
-            let mut sink = Sink(0);
-            match Parser::new_from_str(&text).load(&mut sink, true) {
-                Ok(()) => "ok",
-                Err(_) => "err",
-            }
-        }
-        "load_str_forget" => {
-            let text = nest_text(shape, depth, word);
-            match Yaml::load_from_str(&text) {
-                Ok(d) => {
-                    std::mem::forget(d);
-                    "ok"
-                }
-                Err(_) => "err",
-            }
-        }
-        "load_str_drop" => {
-            let text = nest_text(shape, depth, word);
-            match Yaml::load_from_str(&text) {
-                Ok(d) => {
-                    drop(d);
-                    "ok"
-                }
-                Err(_) => "err",
-            }
-        }
-        "load_marked_drop" => {
-            let text = nest_text(shape, depth, word);
-            match saphyr::MarkedYamlOwned::load_from_str(&text) {
-                Ok(d) => {
-                    drop(d);
-                    "ok"
-                }
-                Err(_) => "err",
-            }
-        }
-        "built_drop" => {
-            let y = built_tree(shape, depth);
-            drop(y);
-            "ok"
-        }
-        _ => {
-            let y = built_tree(shape, depth);
-            let mut out = String::new();
-            let r = YamlEmitter::new(&mut out).dump(&y);
-            std::mem::forget(y);
-            if r.is_ok() {
-                "ok"
-            } else {
-                "err"
-            }
-        }
-    }
-}
-
-/// Entry point of the child process: `verif nest <shape> <api> <depth> <wordhex>`.
-pub fn child_main(args: &[String]) -> i32 {
-    let shape = args[2].clone();
-    let api = args[3].clone();
-    let depth: usize = args[4].parse().unwrap_or(1);
-    let word = crate::engine::unhex(args.get(5).map(|s| s.as_str()).unwrap_or(""));
-    // the default main-thread stack of a Rust program on Linux: 8 MiB
-    let h = std::thread::Builder::new().stack_size(8 << 20).spawn(move || scenario(&shape, &api, depth, &word)).expect("spawn");
-    match h.join() {
-        Ok(r) => {
-            println!("{r}");
-            0
-        }
-        Err(_) => {
-            println!("panic");
-            3
-        }
-    }
-}
+pub use crate::nest_scenario::{child_main, nest_text, scenario, APIS, OPENERS, SHAPES};
 
 #[derive(Debug, PartialEq)]
 pub enum Outcome {
@@ -197,8 +27,25 @@ pub enum Outcome {
     Timeout,
 }
 
-pub fn run_child(shape: &str, api: &str, depth: usize, word: &[u8]) -> Outcome {
-    let mut child = Command::new(std::env::current_exe().expect("exe"))
+/// Path of the unoptimised build of the scenarios (`/verif/nestchild`, built by `bin/check C11`).
+pub fn debug_child() -> Option<String> {
+    let p = std::env::var("VERIF_NEST_DEBUG").unwrap_or_else(|_| format!("{}/nestchild/target/debug/nestchild", crate::gen::root()));
+    std::path::Path::new(&p).exists().then_some(p)
+}
+
+/// Build profiles the scenarios run under: the harness's own (optimised) build, and the dev
+/// profile when its binary is there.
+pub fn profiles() -> Vec<&'static str> {
+    if debug_child().is_some() {
+        vec!["release", "debug"]
+    } else {
+        vec!["release"]
+    }
+}
+
+pub fn run_child(profile: &str, shape: &str, api: &str, depth: usize, word: &[u8]) -> Outcome {
+    let exe = if profile == "debug" { debug_child().expect("debug child binary") } else { std::env::current_exe().expect("exe").to_string_lossy().into_owned() };
+    let mut child = Command::new(exe)
         .arg("nest")
         .arg(shape)
         .arg(api)
@@ -247,38 +94,41 @@ pub fn run_child(shape: &str, api: &str, depth: usize, word: &[u8]) -> Outcome {
     }
 }
 
-pub fn check_scenario(shape: &str, api: &str, depth: usize, word: &[u8]) -> CheckResult {
-    match run_child(shape, api, depth, word) {
+pub fn check_scenario(profile: &str, shape: &str, api: &str, depth: usize, word: &[u8]) -> CheckResult {
+    match run_child(profile, shape, api, depth, word) {
         Outcome::Ok | Outcome::Err => Ok(()),
         Outcome::Signal(sig) => {
             // bisect the smallest crashing depth for the report
             let (mut lo, mut hi) = (0usize, depth);
             while hi - lo > (hi / 50).max(1) {
                 let mid = (lo + hi) / 2;
-                if matches!(run_child(shape, api, mid, word), Outcome::Signal(_)) {
+                if matches!(run_child(profile, shape, api, mid, word), Outcome::Signal(_)) {
                     hi = mid;
                 } else {
                     lo = mid;
                 }
             }
-            Err(Fail::new("abort", format!("shape {shape} through {api} at depth {depth}: child killed by signal {sig} (stack overflow); smallest crashing depth is about {hi}")))
+            Err(Fail::new("abort", format!("[{profile} build] shape {shape} through {api} at depth {depth}: child killed by signal {sig} (stack overflow); smallest crashing depth is about {hi}")))
         }
-        Outcome::Panic => Err(Fail::new("panic", format!("shape {shape} through {api} at depth {depth}: panicked"))),
-        Outcome::Exit(c) => Err(Fail::new("abort", format!("shape {shape} through {api} at depth {depth}: child exit status {c}"))),
-        Outcome::Timeout => Err(Fail::new("hang", format!("shape {shape} through {api} at depth {depth}: no result within 120 s"))),
+        Outcome::Panic => Err(Fail::new("panic", format!("[{profile} build] shape {shape} through {api} at depth {depth}: panicked"))),
+        Outcome::Exit(c) => Err(Fail::new("abort", format!("[{profile} build] shape {shape} through {api} at depth {depth}: child exit status {c}"))),
+        Outcome::Timeout => Err(Fail::new("hang", format!("[{profile} build] shape {shape} through {api} at depth {depth}: no result within 120 s"))),
     }
 }
 
-fn case_json(shape: &str, api: &str, depth: usize, word: &[u8]) -> Value {
-    json!({"shape": shape, "api": api, "depth": depth, "word_hex": crate::engine::hex(word)})
+fn case_json(profile: &str, shape: &str, api: &str, depth: usize, word: &[u8]) -> Value {
+    json!({"profile": profile, "shape": shape, "api": api, "depth": depth, "word_hex": crate::engine::hex(word)})
 }
 
 fn grid_depths(tier: Tier) -> Vec<usize> {
-    tier.pick(vec![1, 10, 100, 1000, 10_000, 30_000], vec![1, 10, 100, 1000, 3000, 10_000, 30_000, 100_000])
+    tier.pick(vec![1, 10, 100, 1000, 10_000, 30_000, 100_000], vec![1, 10, 100, 1000, 3000, 10_000, 30_000, 100_000, 300_000])
 }
 
-fn cap_depth(shape: &str, api: &str, tier: Tier, d: usize) -> usize {
-    if shape == "key-per-level" {
+fn cap_depth(profile: &str, shape: &str, api: &str, tier: Tier, d: usize) -> usize {
+    if profile == "debug" && matches!(shape, "key" | "alt-block" | "mix") && api.starts_with("load_") {
+        // the same quadratic hashing cost, ten times slower without optimisation
+        d.min(3000)
+    } else if shape == "key-per-level" {
         // input size is quadratic in depth: cost bound, stated in the evidence
         d.min(tier.pick(5000, 20_000))
     } else if matches!(shape, "key" | "alt-block" | "mix") && api.starts_with("load_") {
@@ -303,17 +153,20 @@ impl Property for C11P {
         "C11"
     }
     fn rule(&self) -> String {
-        "Scenarios = nesting shape {'- ', '? ', '[', '{a: ', alternating block, alternating flow, block then flow, 'k:' per level \
-         (depth capped at 5*10^3 quick / 2*10^4 thorough because the input is quadratic; nested collection keys through the loaders capped at 10^4 because hashing nested keys is quadratic), random opener mixes} x API {pull iterator, \
+        "Scenarios = build profile {the harness's optimised build; the unoptimised dev profile of /verif/nestchild, where frames are larger and tail calls stay calls — present when bin/check built it} x nesting shape {'- ', '? ', '[', '{a: ', alternating block, alternating flow, block then flow, 'k:' per level \
+         (depth capped at 5*10^3 quick / 2*10^4 thorough because the input is quadratic; nested collection keys through the loaders capped at 10^4 (3*10^3 unoptimised) because hashing nested keys is quadratic), random opener mixes} x API {pull iterator, \
          Parser::load with a counting receiver, load_from_str + forget, load_from_str + drop, MarkedYamlOwned load + drop, iteratively \
-         built tree + drop, iteratively built tree + YamlEmitter::dump} x depth {1, 10, 10^2, 10^3, 10^4, 3*10^4 (+3*10^3, 10^5 thorough)} \
+         built tree + drop, iteratively built tree + YamlEmitter::dump} x depth {1, 10, 10^2, 10^3, 10^4, 3*10^4, 10^5 (+3*10^3, 3*10^5 thorough)} \
          plus proptest-generated (shape, API, log-uniform depth, opener word). Each scenario runs in its own child process on a thread \
          with an 8 MiB stack; the child must exit normally with 'ok' or 'err'. SIGSEGV / SIGABRT => violation (smallest crashing depth \
-         bisected). Non-trivial = depth >= 1000; distinct by (shape, API, depth, word)."
+         bisected). Non-trivial = depth >= 1000; distinct by (profile, shape, API, depth, word)."
             .into()
     }
     fn assumptions(&self) -> Vec<String> {
-        vec!["8 MiB = the default main-thread stack on Linux; host programs with smaller thread stacks crash earlier".into()]
+        vec![
+            "8 MiB = the default main-thread stack on Linux; host programs with smaller thread stacks crash earlier".into(),
+            format!("build profiles exercised in this run: {:?}", profiles()),
+        ]
     }
     fn streams(&self, tier: Tier) -> Vec<StreamSpec> {
         vec![
@@ -324,18 +177,21 @@ impl Property for C11P {
     fn run_block(&self, ctx: &mut Ctx, stream: &str, block: u64) {
         if stream == "grid" {
             let shape = SHAPES[block as usize];
-            for api in APIS {
-                for d in grid_depths(ctx.tier) {
-                    let d = cap_depth(shape, api, ctx.tier, d);
-                    let json = || case_json(shape, api, d, &[]);
-                    let r = ctx.eval(&json, |info| {
-                        if d >= 1000 {
-                            info.nontrivial(&(shape, api, d));
+            for profile in profiles() {
+                for api in APIS {
+                    for d in grid_depths(ctx.tier) {
+                        let d = cap_depth(profile, shape, api, ctx.tier, d);
+                        let json = || case_json(profile, shape, api, d, &[]);
+                        let r = ctx.eval(&json, |info| {
+                            info.class(if profile == "debug" { "profile:debug" } else { "profile:release" });
+                            if d >= 1000 {
+                                info.nontrivial(&(profile, shape, api, d));
+                            }
+                            check_scenario(profile, shape, api, d, &[])
+                        });
+                        if let Err(f) = r {
+                            ctx.record(json(), &f);
                         }
-                        check_scenario(shape, api, d, &[])
-                    });
-                    if let Err(f) = r {
-                        ctx.record(json(), &f);
                     }
                 }
             }
@@ -344,29 +200,32 @@ impl Property for C11P {
         let total = random_cases(ctx.tier);
         let n = (total - (block * 15).min(total)).min(15) as u32;
         let tier = ctx.tier;
+        let profs = profiles();
         crate::engine::run_proptest(
             ctx,
-            (0usize..SHAPES.len(), 0usize..APIS.len(), 0.0f64..5.0, proptest::collection::vec(0u8..5, 1..6)),
+            (0usize..profs.len(), 0usize..SHAPES.len(), 0usize..APIS.len(), 0.0f64..5.0, proptest::collection::vec(0u8..5, 1..6)),
             n,
-            |(s, a, e, w)| case_json(SHAPES[*s], APIS[*a], cap_depth(SHAPES[*s], APIS[*a], tier, 10f64.powf(*e) as usize).max(1), w),
-            |ctx, (s, a, e, w)| {
-                let (shape, api) = (SHAPES[*s], APIS[*a]);
-                let d = cap_depth(shape, api, tier, 10f64.powf(*e) as usize).max(1);
-                ctx.eval(&|| case_json(shape, api, d, w), |info| {
+            |(p, s, a, e, w)| case_json(profs[*p], SHAPES[*s], APIS[*a], cap_depth(profs[*p], SHAPES[*s], APIS[*a], tier, 10f64.powf(*e) as usize).max(1), w),
+            |ctx, (p, s, a, e, w)| {
+                let (profile, shape, api) = (profs[*p], SHAPES[*s], APIS[*a]);
+                let d = cap_depth(profile, shape, api, tier, 10f64.powf(*e) as usize).max(1);
+                ctx.eval(&|| case_json(profile, shape, api, d, w), |info| {
+                    info.class(if profile == "debug" { "profile:debug" } else { "profile:release" });
                     if d >= 1000 {
-                        info.nontrivial(&(shape, api, d, w));
+                        info.nontrivial(&(profile, shape, api, d, w));
                     }
-                    check_scenario(shape, api, d, w)
+                    check_scenario(profile, shape, api, d, w)
                 })
             },
         );
     }
     fn replay(&self, ctx: &mut Ctx, case: &Value) -> CheckResult {
+        let profile = if case["profile"].as_str() == Some("debug") && debug_child().is_some() { "debug" } else { "release" };
         let shape = case["shape"].as_str().unwrap_or("seq").to_string();
         let api = case["api"].as_str().unwrap_or("iter").to_string();
         let d = case["depth"].as_u64().unwrap_or(1) as usize;
         let w = crate::engine::unhex(case["word_hex"].as_str().unwrap_or(""));
-        ctx.eval(&|| case.clone(), |_| check_scenario(&shape, &api, d, &w))
+        ctx.eval(&|| case.clone(), |_| check_scenario(profile, &shape, &api, d, &w))
     }
     fn block_timeout_s(&self, _tier: Tier) -> u64 {
         1500
